@@ -68,10 +68,20 @@ def run(chk):
                 ok = ok and not calls and not other
         ok = ok and n_yes >= 1
     chk.require("C09.R1", f"{mif.rel}:{ff.lineno}", ok, "freeze(model) calls m.freeze() on every QModuleMixin of model.named_modules() and does nothing else", "freeze", "module-level walk", "a nested quantized module is left unfrozen")
+    qweight_source(chk)
+    packing(chk)
+    lifecycle(chk)
+
+
+def qweight_source(chk, r2="C09.R2", r3="C09.R3"):
+    """The quantized weight every consumer sees is the quantization of the module's current weight (shared by C08)."""
+    repo = chk.repo
+    ci = repo.cls("QModuleMixin")
+    mi = ci.mod
     # qweight
     qw = ci.own("qweight")
     is_prop = [U(d) for d in qw.decorator_list] == ["property"]
-    chk.require("C09.R2", f"{mi.rel}:{qw.lineno}", is_prop, f"qweight is a plain property (decorators {[U(d) for d in qw.decorator_list]})", "QModuleMixin.qweight", "qweight is a plain property", "an optimizer step after the first forward is not reflected (cached value)")
+    chk.require(r2, f"{mi.rel}:{qw.lineno}", is_prop, f"qweight is a plain property (decorators {[U(d) for d in qw.decorator_list]})", "QModuleMixin.qweight", "qweight is a plain property", "an optimizer step after the first forward is not reflected (cached value)")
     n = 0
     for p in paths_of(qw):
         if p.end[0] != "return":
@@ -81,18 +91,18 @@ def run(chk):
         e = p.end[1]
         site = f"{mi.rel}:{p.end[2]}"
         stores = [ef for ef in p.effects if ef[0] in ("store", "substore", "augstore")]
-        chk.require("C09.R2", site, not stores, "qweight writes nothing", "QModuleMixin.qweight", "qweight store", "qweight caches or mutates module state")
+        chk.require(r2, site, not stores, "qweight writes nothing", "QModuleMixin.qweight", "qweight store", "qweight caches or mutates module state")
         if f.get("self.weight_qtype is None") is True:
-            chk.require("C09.R2", site, U(e) == "None", "qweight is None when the module does not quantize its weights", "QModuleMixin.qweight", "qweight None", "a weight-less quantized module")
+            chk.require(r2, site, U(e) == "None", "qweight is None when the module does not quantize its weights", "QModuleMixin.qweight", "qweight None", "a weight-less quantized module")
         elif f.get("isinstance(self.weight, QTensor)") is True:
-            chk.require("C09.R2", site, U(e) == "self.weight", f"frozen: qweight returns self.weight itself (`{U(e)}`)", "QModuleMixin.qweight", "frozen qweight", "freeze() twice, or a forward after freeze: the frozen weight is quantized again")
+            chk.require(r2, site, U(e) == "self.weight", f"frozen: qweight returns self.weight itself (`{U(e)}`)", "QModuleMixin.qweight", "frozen qweight", "freeze() twice, or a forward after freeze: the frozen weight is quantized again")
         else:
             mi_q, qwf = repo.func("quantize_weight")
             b = bind_call(qwf, e) if isinstance(e, ast.Call) and U(e.func) == "quantize_weight" else None
             want = {"t": "self.weight", "qtype": "self.weight_qtype", "axis": "0", "group_size": "self.weight_group_size", "optimizer": "self.optimizer"}
             ok = b is not None and {k: U(v) for k, v in b.items()} == want and f.get("isinstance(self.weight, QTensor)") is False
-            chk.require("C09.R3", site, ok, f"unfrozen: qweight = quantize_weight(self.weight, qtype=self.weight_qtype, axis=0, group_size=self.weight_group_size, optimizer=self.optimizer)", "QModuleMixin.qweight", "dynamic quantization arguments", "any unfrozen module: weights quantized with another qtype/axis/group/optimizer than configured")
-    chk.floor("C09.R2", n, 3, "qweight paths")
+            chk.require(r3, site, ok, f"unfrozen: qweight = quantize_weight(self.weight, qtype=self.weight_qtype, axis=0, group_size=self.weight_group_size, optimizer=self.optimizer)", "QModuleMixin.qweight", "dynamic quantization arguments", "any unfrozen module: weights quantized with another qtype/axis/group/optimizer than configured")
+    chk.floor(r2, n, 3, "qweight paths")
     # quantize_weight called nowhere else under nn/
     others = []
     for m in repo.modules.values():
@@ -100,7 +110,7 @@ def run(chk):
             for node in ast.walk(m.tree):
                 if isinstance(node, ast.Call) and U(node.func) == "quantize_weight":
                     others.append(f"{m.rel}:{node.lineno}")
-    chk.require("C09.R3", mi.rel, len(others) == 1, f"quantize_weight is called at exactly one site under nn/ ({others})", "nn/", "second quantize_weight site", "freeze and the dynamic path quantize the weight differently")
+    chk.require(r3, mi.rel, len(others) == 1, f"quantize_weight is called at exactly one site under nn/ ({others})", "nn/", "second quantize_weight site", "freeze and the dynamic path quantize the weight differently")
     # users of the quantized weight go through self.qweight
     for tname, qci in sorted(qmodules(repo).items()):
         qf = qci.own("qforward")
@@ -109,9 +119,7 @@ def run(chk):
         uses_w = [U(n) for n in ast.walk(qf) if isinstance(n, ast.Attribute) and U(n.value) == "self" and n.attr in ("weight", "qweight")]
         if tname == "torch.nn.LayerNorm":
             continue
-        chk.require("C09.R3", f"{qci.mod.rel}:{qf.lineno}", uses_w == ["self.qweight"], f"{qci.name}.qforward reads the weight only as self.qweight ({uses_w})", f"{qci.name}.qforward", "weight source", "dynamic and frozen outputs differ (float weight or a second quantization used)")
-    packing(chk)
-    lifecycle(chk)
+        chk.require(r3, f"{qci.mod.rel}:{qf.lineno}", uses_w == ["self.qweight"], f"{qci.name}.qforward reads the weight only as self.qweight ({uses_w})", f"{qci.name}.qforward", "weight source", "dynamic and frozen outputs differ (float weight or a second quantization used)")
 
 
 def packing(chk):
